@@ -18,9 +18,17 @@ pub fn intersect_ll(u: &Line, v: &Line) -> Option<Point> {
     }
     // u.a * x + u.b * y + u.c == 0
     // v.a * x + v.b * y + v.c == 0
-    let x = -(u.c * v.b - u.b * v.c) / (u.a * v.b - u.b * v.a);
-    let y = -(u.c * v.a - u.a * v.c) / (u.b * v.a - u.a * v.b);
-    Some(Point::new(x, y))
+    // One coordinate by Cramer's rule, the other from u's own equation: for nearly parallel lines the rounding
+    // error of Cramer's rule is amplified by 1 / sin(angle); taken this way it moves the point along u (and so
+    // almost along v) instead of off both lines, as two independently rounded coordinates did.
+    let det = u.a * v.b - u.b * v.a;
+    if u.b.abs() >= u.a.abs() {
+        let x = -(u.c * v.b - u.b * v.c) / det;
+        Some(Point::new(x, -(u.a * x + u.c) / u.b))
+    } else {
+        let y = (u.c * v.a - u.a * v.c) / det;
+        Some(Point::new(-(u.b * y + u.c) / u.a, y))
+    }
 }
 
 pub enum CircleLineIntersection {
